@@ -1,12 +1,270 @@
-//! C18 — ops evaluated on the real code and the generator of their inputs.
-#![allow(unused_imports, dead_code, clippy::all)]
+//! C18 — `DistanceMatrix` on the real code.
+//!
+//!   dm_i order inf [[u v w]..] [[u v]..]   (W = isize)       dm_u ..  (W = usize)
+//!       `DistanceMatrix::new(order, inf)`, the `IndexMut<(u, v)>` writes in order, then
+//!       => [ecc..] diam [center..] [periphery..] true|false [read..] [raw..]
+//!          | panic-new | [panic-set k]
+//!   dm_fw [wi n warcs]
+//!       `FloydWarshall::new(&digraph).distances()`
+//!       => inf [entry (u,v) row-major..] [ecc..] diam [center..] [periphery..] true|false
+#![allow(clippy::all)]
 
 use crate::graphs::{self, Desc};
 use crate::rng::Rng;
 use crate::value::V;
+use graaf::{DistanceMatrix, FloydWarshall};
+use std::panic::{catch_unwind, AssertUnwindSafe};
 
-pub fn eval(_op: &str, _args: &[V]) -> Option<Vec<V>> {
-    None
+trait W: Copy + Ord + 'static {
+    fn of(v: &V) -> Option<Self>;
+    fn show(self) -> V;
+}
+impl W for isize {
+    fn of(v: &V) -> Option<Self> {
+        v.as_isize()
+    }
+    fn show(self) -> V {
+        V::I(self as i128)
+    }
+}
+impl W for usize {
+    fn of(v: &V) -> Option<Self> {
+        v.as_usize()
+    }
+    fn show(self) -> V {
+        V::I(self as i128)
+    }
 }
 
-pub fn gen(_rng: &mut Rng, _thorough: bool, _emit: &mut dyn FnMut(String)) {}
+fn metrics<T: W>(m: &DistanceMatrix<T>) -> Vec<V> {
+    vec![
+        V::L(m.eccentricities().map(|e| e.show()).collect()),
+        m.diameter().show(),
+        V::us(m.center()),
+        V::us(m.periphery()),
+        V::bool(m.is_connected()),
+    ]
+}
+
+fn build<T: W>(args: &[V]) -> Option<Vec<V>> {
+    let [order, inf, ws, reads] = args else { return None };
+    let order = order.as_usize()?;
+    let inf = T::of(inf)?;
+    let mut writes = Vec::new();
+    for w in ws.as_list()? {
+        let w = w.as_list()?;
+        if w.len() != 3 {
+            return None;
+        }
+        writes.push((w[0].as_usize()?, w[1].as_usize()?, T::of(&w[2])?));
+    }
+    let reads = reads.as_pairs()?;
+    let Ok(mut m) = catch_unwind(AssertUnwindSafe(|| DistanceMatrix::<T>::new(order, inf))) else {
+        return Some(vec![V::atom("panic-new")]);
+    };
+    for (k, &(u, v, w)) in writes.iter().enumerate() {
+        if catch_unwind(AssertUnwindSafe(|| m[(u, v)] = w)).is_err() {
+            return Some(vec![V::L(vec![V::atom("panic-set"), V::u(k)])]);
+        }
+    }
+    let mut out = metrics(&m);
+    out.push(V::L(
+        reads
+            .iter()
+            .map(|&(u, v)| catch_unwind(AssertUnwindSafe(|| m[(u, v)])).map_or_else(|_| V::atom("panic"), W::show))
+            .collect(),
+    ));
+    out.push(V::L(m[..].iter().map(|x| x.show()).collect()));
+    Some(out)
+}
+
+pub fn eval(op: &str, args: &[V]) -> Option<Vec<V>> {
+    match op {
+        "dm_i" => build::<isize>(args),
+        "dm_u" => build::<usize>(args),
+        "dm_fw" => {
+            let [g] = args else { return None };
+            let d = Desc::parse(g)?;
+            if d.repr != "wi" {
+                return None;
+            }
+            let n = d.order();
+            let digraph = d.build_wi();
+            let mut fw = FloydWarshall::new(&digraph);
+            let m = fw.distances();
+            let mut out = vec![m.infinity.show()];
+            out.push(V::L((0..n).flat_map(|u| (0..n).map(move |v| (u, v))).map(|uv| m[uv].show()).collect()));
+            out.extend(metrics(m));
+            Some(out)
+        }
+        _ => None,
+    }
+}
+
+// ------------------------------------------------------------------------------ generator
+
+fn gen_order(rng: &mut Rng) -> usize {
+    match rng.below(100) {
+        0..=7 => 1,
+        8..=84 => 2 + rng.below(11),  // 2..12
+        _ => 13 + rng.below(28),      // 13..40
+    }
+}
+
+/// One matrix family: returns the write list (row-major position -> value), possibly partial.
+fn gen_matrix(rng: &mut Rng, n: usize, inf: i128, lo: i128, signed: bool) -> (Vec<(usize, usize, i128)>, bool) {
+    let mut ws: Vec<(usize, usize, i128)> = Vec::new();
+    let small = |rng: &mut Rng, k: usize| -> i128 {
+        let x = rng.below(k) as i128;
+        if signed && rng.chance(1, 4) { -x } else { x }
+    };
+    let fam = rng.below(12);
+    let mut shuffle = true;
+    match fam {
+        0 => {}                                                    // fresh: every entry infinite
+        1 => {                                                     // sparse writes, most entries infinite
+            for _ in 0..rng.below(n * 2 + 1) {
+                ws.push((rng.below(n), rng.below(n), small(rng, 6)));
+            }
+        }
+        2 | 3 => {                                                 // full, tiny value range: many ties
+            let k = 1 + rng.below(3);
+            for u in 0..n { for v in 0..n { ws.push((u, v, small(rng, k + 1))); } }
+        }
+        4 => {                                                     // full, wide range: unique extrema
+            for u in 0..n { for v in 0..n { ws.push((u, v, small(rng, 1000))); } }
+        }
+        5 => {                                                     // each row constant (ecc known), ties by row
+            let k = 1 + rng.below(3);
+            for u in 0..n { let c = small(rng, k + 1); for v in 0..n { ws.push((u, v, c)); } }
+        }
+        6 => {                                                     // strongly asymmetric: row u = u, column max elsewhere
+            for u in 0..n { for v in 0..n { ws.push((u, v, (u as i128) * 3 + if v == 0 { 1 } else { 0 })); } }
+        }
+        7 => {                                                     // some rows contain infinity, others do not
+            for u in 0..n {
+                let holes = rng.chance(1, 2);
+                for v in 0..n {
+                    let x = if holes && rng.chance(1, 3) { inf } else { small(rng, 5) };
+                    ws.push((u, v, x));
+                }
+            }
+        }
+        8 => {                                                     // every row has an infinite entry, rest written
+            for u in 0..n {
+                let h = rng.below(n);
+                for v in 0..n { ws.push((u, v, if v == h { inf } else { small(rng, 5) })); }
+            }
+        }
+        9 => {                                                     // overwrite the same cells repeatedly (last write wins)
+            for _ in 0..(n * n + 3) {
+                ws.push((rng.below(n.min(3)), rng.below(n.min(3)), small(rng, 4)));
+            }
+            shuffle = false;
+        }
+        10 => {                                                    // extreme values of the type
+            for u in 0..n { for v in 0..n {
+                let x = match rng.below(4) { 0 => inf, 1 => lo, 2 => inf - 1, _ => small(rng, 3) };
+                ws.push((u, v, x));
+            } }
+        }
+        _ => {                                                     // a metric-like matrix: zero diagonal, positive elsewhere
+            for u in 0..n { for v in 0..n {
+                ws.push((u, v, if u == v { 0 } else { 1 + rng.below(4) as i128 }));
+            } }
+        }
+    }
+    if shuffle && rng.chance(1, 2) {
+        rng.shuffle(&mut ws);
+    }
+    (ws, fam == 0)
+}
+
+fn show_ws(ws: &[(usize, usize, i128)]) -> V {
+    V::L(ws.iter().map(|&(u, v, w)| V::L(vec![V::u(u), V::u(v), V::I(w)])).collect())
+}
+
+fn gen_reads(rng: &mut Rng, n: usize) -> V {
+    let k = 1 + rng.below(4);
+    V::pairs((0..k).map(|_| {
+        if rng.chance(1, 12) {
+            // out of the square: aliases another cell or panics — correspondence only
+            (rng.below(n + 2), n + rng.below(2))
+        } else {
+            (rng.below(n), rng.below(n))
+        }
+    }))
+}
+
+pub fn gen(rng: &mut Rng, thorough: bool, emit: &mut dyn FnMut(String)) {
+    let imax = isize::MAX as i128;
+    let imin = isize::MIN as i128;
+    let umax = usize::MAX as i128;
+    // (0) fixed edge cases
+    emit(format!("dm_i 0 {imax} [] []"));
+    emit(format!("dm_u 0 {umax} [] []"));
+    emit(format!("dm_i 4294967296 {imax} [] []"));
+    emit(format!("dm_u 18446744073709551615 0 [] []"));
+    emit(format!("dm_i 1 {imax} [] [[0 0]]"));
+    emit(format!("dm_u 1 {umax} [] [[0 0] [0 1] [1 0]]"));
+    emit(format!("dm_i 1 {imax} [[0 0 0]] [[0 0]]"));
+    emit(format!("dm_i 2 {imax} [[0 1 5]] [[0 1] [1 0]]"));
+    emit(format!("dm_u 3 {umax} [[2 0 7] [0 2 9]] [[2 0] [0 2]]"));
+    emit(format!("dm_i 2 5 [[0 0 5] [0 1 5] [1 0 5] [1 1 5]] [[1 1]]"));
+    emit(format!("dm_i 3 {imax} [[1 3 1]] []")); // (1,3) aliases (2,0)
+    emit(format!("dm_i 3 {imax} [[2 3 1]] []")); // out of bounds: panics
+    // (1) exhaustive tiny scope: all 2x2 matrices over {0, 1, inf} with inf = 2, both types
+    for code in 0..81usize {
+        let mut c = code;
+        let mut ws = Vec::new();
+        for u in 0..2 { for v in 0..2 { ws.push((u, v, (c % 3) as i128)); c /= 3; } }
+        emit(format!("dm_i 2 2 {} [[0 1] [1 0]]", show_ws(&ws)));
+        if thorough || code % 3 == 0 {
+            emit(format!("dm_u 2 2 {} [[0 1] [1 0]]", show_ws(&ws)));
+        }
+    }
+    // (1b) thorough: all 3x3 matrices over {0, 1, inf} with inf = 2 (3^9 = 19 683)
+    if thorough {
+        for code in 0..19_683usize {
+            let mut c = code;
+            let mut ws = Vec::new();
+            for u in 0..3 { for v in 0..3 { ws.push((u, v, (c % 3) as i128)); c /= 3; } }
+            let op = if code % 2 == 0 { "dm_i" } else { "dm_u" };
+            emit(format!("{op} 3 2 {} [[0 2] [2 0] [1 2]]", show_ws(&ws)));
+        }
+    }
+    // (2) random matrices through the public API
+    let n_random = if thorough { 40_000 } else { 3_000 };
+    for _ in 0..n_random {
+        let n = gen_order(rng);
+        let signed = rng.chance(1, 2);
+        let (op, inf, lo) = if signed {
+            ("dm_i", if rng.chance(3, 4) { imax } else { 50 + rng.below(50) as i128 }, imin)
+        } else {
+            ("dm_u", if rng.chance(3, 4) { umax } else { 50 + rng.below(50) as i128 }, 0)
+        };
+        let (mut ws, _) = gen_matrix(rng, n, inf, lo, signed);
+        // entries must not exceed infinity (the property's hypothesis) …
+        for w in ws.iter_mut() {
+            if w.2 > inf { w.2 = inf; }
+        }
+        // … except in a small correspondence-only stream
+        if inf < 1000 && rng.chance(1, 6) && !ws.is_empty() {
+            let i = rng.below(ws.len());
+            ws[i].2 = inf + 1 + rng.below(3) as i128;
+            if rng.chance(1, 3) {
+                for w in ws.iter_mut() { w.2 = inf + 1; }
+            }
+        }
+        emit(format!("{op} {n} {inf} {} {}", show_ws(&ws), gen_reads(rng, n)));
+    }
+    // (3) matrices produced by the real FloydWarshall
+    let n_fw = if thorough { 10_000 } else { 800 };
+    for _ in 0..n_fw {
+        let max = if rng.chance(1, 8) { 40 } else { 12 };
+        // negative weights (negative circuits make entries shrink geometrically) only on small orders
+        let (lo, hi) = match rng.below(4) { 0 => (1, 1), 1 => (0, 3), 2 => (1, 100), _ => if max <= 12 { (-3, 20) } else { (0, 9) } };
+        let (_, d) = graphs::gen_wdesc(rng, "wi", max, lo, hi);
+        emit(format!("dm_fw {}", d.to_v()));
+    }
+}
